@@ -331,49 +331,32 @@ def fn_to_sympy(
 
 
 def _handle_fn_body(body: list[ast.stmt], ctx: Context) -> sympy.Expr | None:
-    pieces = []
-    remaining_body = list(body)
-
-    while remaining_body:
-        node = remaining_body.pop(0)
-
+    for idx, node in enumerate(body):
         if isinstance(node, ast.If):
             condition = _handle_expr(node.test, ctx)
-            if_expr = _handle_fn_body(node.body, ctx)
-            pieces.append((if_expr, condition))
+            # Each branch is followed by the code after the if statement and works
+            # on its own copy of the local names, so assignments cannot leak
+            rest = body[idx + 1 :]
+            if_expr = _handle_fn_body(
+                [*node.body, *rest], ctx.updated(symbols=dict(ctx.symbols))
+            )
+            else_expr = _handle_fn_body(
+                [*node.orelse, *rest], ctx.updated(symbols=dict(ctx.symbols))
+            )
+            if condition is None or if_expr is None or else_expr is None:
+                return None
+            # elif / subsequent ifs: keep one flat chain of pieces
+            if isinstance(else_expr, sympy.Piecewise):
+                return sympy.Piecewise((if_expr, condition), *else_expr.args)
+            return sympy.Piecewise((if_expr, condition), (else_expr, True))
 
-            # If there's an else clause
-            if node.orelse:
-                # Check if it's an elif (an If node in orelse)
-                if len(node.orelse) == 1 and isinstance(node.orelse[0], ast.If):
-                    # Push the elif back to the beginning of remaining_body to process next
-                    remaining_body.insert(0, node.orelse[0])
-                else:
-                    # It's a regular else
-                    else_expr = _handle_fn_body(node.orelse, ctx)  # FIXME: copy here
-                    pieces.append((else_expr, True))
-                    break  # We're done with this chain
-
-            elif not remaining_body and any(
-                isinstance(n, ast.Return) for n in body[body.index(node) + 1 :]
-            ):
-                else_expr = _handle_fn_body(
-                    body[body.index(node) + 1 :], ctx
-                )  # FIXME: copy here
-                pieces.append((else_expr, True))
-
-        elif isinstance(node, ast.Return):
+        if isinstance(node, ast.Return):
             if (value := node.value) is None:
                 msg = "Return value cannot be None"
                 raise ValueError(msg)
+            return _handle_expr(value, ctx)
 
-            expr = _handle_expr(value, ctx)
-            if not pieces:
-                return expr
-            pieces.append((expr, True))
-            break
-
-        elif isinstance(node, ast.Assign):
+        if isinstance(node, ast.Assign):
             # Handle tuple assignments like c, d = a, b
             if isinstance(node.targets[0], ast.Tuple):
                 # Handle tuple unpacking
@@ -427,10 +410,6 @@ def _handle_fn_body(body: list[ast.stmt], ctx: Context) -> sympy.Expr | None:
                     _LOGGER.debug("Skipping import %s", node)
         else:
             _LOGGER.debug("Skipping node of type %s", type(node))
-
-    # If we have pieces to combine into a Piecewise
-    if pieces:
-        return sympy.Piecewise(*pieces)
 
     # If no return was found but we have assignments, return the last assigned variable
     for node in reversed(body):
